@@ -328,6 +328,9 @@ def add_route(ctx):
                     ok = self_field(a[0], "routes") and same and look(a[2]) == ("arg", 4)
             ctx.ob("R17.5", "vacant|inserted", ok, "a vacant key gets exactly the handler passed in and returns Ok", fa.loc(lf.bb))
         else:
+            if ins and r[0] == "agg" and r[2] == "Err":
+                # e.g. `if routes.insert(k, h).is_some() { return Err(HandlerExist) }`: the refusal comes after the overwrite
+                ctx.fail("R17.5", "refused-after-insert", "add_route returns an error on a path that has already inserted into the route table: a refused registration replaces the handler that was there", fa.loc(ins[0][1]))
             ctx.fail("R17.5", "undecided-path", "a path through add_route is not decided by the key being occupied / vacant", fa.loc(lf.bb))
     ctx.ob("R17.5", "covered", seen == {"occupied", "vacant"}, "both outcomes have a path (%s)" % sorted(seen))
     # nobody else mutates the route table
